@@ -6,7 +6,8 @@ SuppBasic == << S("cat", "runtime", "-", "-"), S("catlabel", "runtime", "a", "-"
                 S("catlabelf", "runtime", "a", "f1"), S("label", "-", "a", "-"),
                 S("labelf", "-", "b", "f1"), S("cat", "syntax", "-", "-"),
                 S("catlabel", "syntax", "b", "-"), S("labelf", "-", "a", "f2"),
-                S("catlabelf", "runtime", "b", "j1"), S("labelf", "-", "b", "k2") >>
+                S("catlabelf", "runtime", "b", "j1"), S("labelf", "-", "b", "k2"),
+                S("catf", "runtime", "-", "k2"), S("catf", "runtime", "-", "f1") >>
 SuppScore == << S("cat", "runtime", "-", "-"), S("label", "-", "a", "-") >>
 AllCats == {"syntax", "mistakes", "instructor", "algorithmic", "runtime", "student", "specification",
             "positive", "instructions", "uncategorized", "style", "system", "complete"}
